@@ -23,6 +23,10 @@ type C03Case struct {
 	High   uint64  `json:"high,omitempty"` // stand-alone Verify also runs on the state embedded under High
 	Deep   int     `json:"deep,omitempty"` // >0: the state is one tree of 2^Deep leaves with only leaf 0's path known (see deepView); overrides Blocks
 	Tuple  Tuple   `json:"tuple"`
+	// Detour: before the claim is judged every forest takes one more block (first live leaf spent, 3
+	// leaves added), verifies an honest proof in that state, and is taken back with Undo: the claim is put
+	// to long-lived forests that have seen a Modify, a Verify and an Undo since the state was reached.
+	Detour bool `json:"detour,omitempty"`
 }
 
 func genStateBlocks(t *rapid.T, lim limits) ([]Block, *model.Forest) {
@@ -72,6 +76,7 @@ func genC03(t *rapid.T) C03Case {
 	v := f.View()
 	inRange := rapid.IntRange(0, 3).Draw(t, "inrange") != 0
 	c.Tuple = genHostileTuple(t, f, v, inRange, false)
+	c.Detour = rapid.IntRange(0, 2).Draw(t, "detour") == 0
 	return c
 }
 
@@ -160,6 +165,15 @@ func runC03Deep(c C03Case, res *Result) *Result {
 	}, both); r != nil {
 		return r
 	}
+	if r := try("MapPollard(from roots).Verify(remember)", func() error { return m.Verify(cloneHashes(hs), cloneProof(proof), true) }, both); r != nil {
+		return r
+	}
+	m2 := u.NewMapPollardFromRoots(cloneHashes(v.Roots), v.N, false)
+	if r := try("MapPollard(from roots).VerifyPartialProof(remember)", func() error {
+		return m2.VerifyPartialProof(cloneU64(proof.Targets), cloneHashes(hs), cloneHashes(proof.Proof), true)
+	}, both); r != nil {
+		return r
+	}
 	res.NonTrivial = !isHonest(c.Tuple, f, v)
 	return res
 }
@@ -179,6 +193,40 @@ func runC03(c C03Case) *Result {
 	}
 	f := ls.f
 	v := f.View()
+	if c.Detour {
+		db := Block{Add: 3, Salt: 77}
+		if live := f.Live(); len(live) > 0 {
+			db.Del = live[:1]
+		}
+		delH := f.HashesOf(db.Del)
+		dp := v.Proof(delH)
+		adds, addH := mkLeavesSalt(db.Salt, len(f.Hashes), db.Add, func(int) bool { return true })
+		g := f.Clone()
+		applyToModel(g, db)
+		gv := g.View()
+		hp := gv.Proof(addH[:1])
+		for _, in := range ls.insts {
+			if err := in.Apply(adds, delH, dp); err != nil {
+				res.class("setup-failed")
+				return res
+			}
+			in.ar.next()
+			if err := in.Acc().Verify(in.ar.hashes(addH[:1]), in.ar.proof(hp), false); err != nil {
+				res.class("setup-failed") // an honest proof refused: C02's business
+				return res
+			}
+			in.ar.next()
+			if err := in.Acc().Undo(uint64(db.Add), in.ar.proof(dp), in.ar.hashes(delH), in.ar.hashes(v.Roots)); err != nil {
+				res.class("setup-failed") // C06's business
+				return res
+			}
+			if err := in.checkRoots(v); err != nil {
+				res.class("setup-failed")
+				return res
+			}
+		}
+		res.class("state:after-block-verify-undo")
+	}
 	hs, proof, err := tupleToArgs(c.Tuple, f, v)
 	if err != nil {
 		return res.failf("case error: %v", err)
@@ -308,6 +356,24 @@ func runC03(c C03Case) *Result {
 			if bad := falseClaims(et, hs, func(pos uint64, h Hash) bool { w, ok := embAt[pos]; return ok && w == h }); len(bad) > 0 {
 				return res.failf("Verify accepted a false claim on a stump with %d leaves (forest of %d embedded under %d): %v (targets %v)", big.NumLeaves, v.N, c.High, bad, et)
 			}
+		}
+	}
+	// last, because they change the forests: the same claim through the REMEMBERING entry points
+	if r := call("Pollard.Verify(remember)", func() error { return ls.insts[0].P.Verify(cloneHashes(hs), cloneProof(proof), true) }, extTruth); r != nil {
+		return r
+	}
+	if r := call(mp.Cfg.String()+" Verify(remember)", func() error { return mp.M.Verify(cloneHashes(hs), cloneProof(proof), true) }, mapTruth(mp)); r != nil {
+		return r
+	}
+	if (len(c.Tuple.Targets)+len(c.Tuple.Proof))%2 == 0 {
+		if r := call(part.Cfg.String()+" Verify(remember)", func() error { return part.M.Verify(cloneHashes(hs), cloneProof(proof), true) }, mapTruth(part)); r != nil {
+			return r
+		}
+	} else {
+		if r := call(part.Cfg.String()+" VerifyPartialProof(all proof hashes, remember)", func() error {
+			return part.M.VerifyPartialProof(cloneU64(proof.Targets), cloneHashes(hs), cloneHashes(proof.Proof), true)
+		}, mapTruth(part)); r != nil {
+			return r
 		}
 	}
 	res.count("verifier_calls_accepting", accepted)
